@@ -7,6 +7,8 @@ use tokio::sync::broadcast::{error::RecvError, Receiver, Sender};
 
 pub use self::error::Error;
 pub use self::j1939::{J1939Unit, J1939UnitError, NetDriverContext, NetworkService};
+#[cfg(feature = "verif")]
+pub use self::j1939::verif_access;
 
 pub type Result<T = ()> = std::result::Result<T, error::Error>;
 
